@@ -75,7 +75,7 @@ pub trait CaseEngine: Sync {
     /// CPU seconds (not wall-clock: load independent) a case may burn without emitting a progress line before it
     /// is killed as spinning; engines emit a progress line per operation, and an operation takes milliseconds
     fn hang_cpu_seconds(&self) -> f64 {
-        300.0
+        240.0
     }
 }
 
@@ -315,7 +315,10 @@ pub fn parent_main(engine: &dyn CaseEngine, args: &Args) -> Report {
         .map(|i| spawn(args, i, workers, 0, &tx, &scratch, 0, engine.file_size_limit()))
         .collect();
     let mut rep = Report::new(engine.property(), &engine.rule());
-    let timeout = Duration::from_secs(engine.case_timeout_s(args));
+    // the wall-clock watchdog (inconclusive) must not fire before the CPU budget (verdict) can be reached
+    let cpu_budget = engine.hang_cpu_seconds();
+    let wall = engine.case_timeout_s(args);
+    let timeout = Duration::from_secs(if cpu_budget.is_finite() { wall.max(2 * cpu_budget as u64 + 60) } else { wall });
     let mut live = workers;
     let mut watchdog_kills = 0u64;
     let max_watchdog_kills = args.u64("max-stuck", engine.max_stuck_cases());
